@@ -139,6 +139,19 @@ class Env(object):
                 mod.T = T
             self.ns.update({k: v for k, v in vars(mod).items() if callable(v) and not k.startswith("_")})
         self.ns["T"] = T
+        import rpyc.core.channel as channel_mod, rpyc.core.stream as stream_mod, errno as errno_mod
+        Cc = tables.frame_consts_from_module(channel_mod) if job.get("table", "module") == "module" else \
+            tables.frame_consts_from_reference(channel_mod)
+        for m in job["spec_modules"]:
+            mod = importlib.import_module("spec." + m)
+            if hasattr(mod, "C"):
+                mod.C = Cc
+        self.ns["C"] = Cc
+        self.ns["ClosedFile"] = stream_mod.ClosedFile
+        self.ns["errno"] = errno_mod
+        import spec.harness as harness
+        self.harness = harness
+        self.ns["mkchannel"] = harness.mkchannel
         self.ns["join"] = lambda l: b"".join(l)
         self.ns["same"] = native.same_bits
         self.ns["bytesio"] = io.BytesIO
@@ -183,6 +196,8 @@ class Env(object):
 
 def adapt(sort, value):
     """(argument passed to the real function, object visible to spec expressions)"""
+    if callable(value) and getattr(value, "__name__", "") == "<lambda>":
+        value = value()          # factory of a fresh stateful object
     if sort == "obj:BytesIO":
         bio = io.BytesIO(value) if isinstance(value, (bytes, bytearray)) else value
         return bio, BytesIOView(bio)
@@ -191,6 +206,10 @@ def adapt(sort, value):
 
 def candidates(env, sort, pname, contract):
     rng = env.rng
+    if pname == "count" and sort == "int":
+        return [0, 1, 5, 255, 63999, 64000, 64001, 100000, -1]
+    if pname == "data" and sort == "bytes" and contract is not None and ("stream.py" in contract.target or "channel.py" in contract.target):
+        return env.harness.payloads(rng)
     if sort == "val" or sort == "any":
         return all_values(rng)
     if sort == "int":
@@ -215,7 +234,24 @@ def candidates(env, sort, pname, contract):
         return [[], [b"pre", b"fix"]]
     if sort == "obj:BytesIO":
         return gen_bytes_streams(rng, env.ns["enc"], env.ns["T"])
+    if sort == "obj:SocketStream":
+        return env.harness.socketstreams(rng)
+    if sort == "obj:PipeStream":
+        return env.harness.pipestreams(rng)
+    if sort == "obj:Channel":
+        return env.harness.channels(rng)
+    if pname == "count":
+        return [0, 1, 5, 255, 63999, 64000, 64001, 100000, -1]
+    if pname == "data" and sort == "bytes":
+        return env.harness.payloads(rng)
     raise KeyError("no native candidates for sort %s" % sort)
+
+
+def snapshot(v):
+    """old(...) values: mutable plain containers are copied, objects keep their identity"""
+    if isinstance(v, (list, dict, set, bytearray)):
+        return copy.deepcopy(v)
+    return v
 
 
 def short(v, n=300):
@@ -253,8 +289,10 @@ def run_case(env, contract, beh, func, mod, assignment, ghost):
             return None
     checks = []
     for cname, (expr, props) in beh.ensures.items():
+        if env.job.get("property") and env.job["property"] not in props:
+            continue          # clause needed by other properties only: checked under their checks
         code, olds = env.split_old(expr)
-        oldvals = {"__old%d" % i: copy.deepcopy(env.ev(o, scope, mod)) for i, o in enumerate(olds)}
+        oldvals = {"__old%d" % i: snapshot(env.ev(o, scope, mod)) for i, o in enumerate(olds)}
         checks.append((cname, expr, code, oldvals))
     only = {}
     for ename, spec in beh.raises.items():
@@ -327,6 +365,11 @@ def check_target(env, target, bname, budget, given=None):
             cases = [{"assignment": dict(zip(pnames, c)), "ghost": {}} for c in combos]
     for case in cases:
         out["tried"] += 1
+        # stateful arguments come from factories: materialise them now and remember their initial state
+        case["assignment"] = {k: (v() if callable(v) and getattr(v, "__name__", "") == "<lambda>" else v)
+                              for k, v in case["assignment"].items()}
+        stateful = any(str(srt).startswith("obj:") and srt != "obj:BytesIO" for srt in contract.params.values())
+        before = (to_literal(case["assignment"]), {k: short(v, 400) for k, v in case["assignment"].items()}) if stateful else None
         try:
             fails = run_case(env, contract, beh, func, mod, case["assignment"], case["ghost"])
         except Exception as e:
@@ -338,8 +381,8 @@ def check_target(env, target, bname, budget, given=None):
         for f in fails:
             if len(out["failures"]) < 5:
                 f = dict(f)
-                f["inputs"] = {k: short(v, 400) for k, v in case["assignment"].items()}
-                f["inputs_pickle"] = to_literal(case["assignment"])
+                f["inputs"] = before[1] if before else {k: short(v, 400) for k, v in case["assignment"].items()}
+                f["inputs_pickle"] = before[0] if before else to_literal(case["assignment"])
                 f["ghost"] = {k: short(v, 400) for k, v in case["ghost"].items()}
                 f["ghost_pickle"] = to_literal(case["ghost"])
                 out["failures"].append(f)
@@ -362,6 +405,10 @@ def to_literal(d):
 
 
 def candidates_for_ghost(env, name, sort):
+    if name == "d" and sort == "bytes":
+        return env.harness.payloads(env.rng)
+    if sort == "bool":
+        return [True, False]
     if sort == "val":
         return plain_values(env.rng)
     if sort == "bytes":
